@@ -8,7 +8,7 @@ SEED=${VERIF_SEED:-24301}
 cd /verif/harness/vh || exit 2
 export CARGO_NET_OFFLINE=true
 WORK=/verif/target/fuzz-work/$T
-rm -rf $WORK; mkdir -p $WORK /verif/replays/$ID
+rm -rf $WORK; mkdir -p $WORK /verif/replays/$ID /verif/corpus/$T
 LOG=/verif/target/fuzz-$T.log
 cargo +nightly fuzz build --target-dir /verif/target/fuzz $T > /verif/target/fuzz-build-$T.log 2>&1 || { echo "INCONCLUSIVE: fuzz build failed, see /verif/target/fuzz-build-$T.log" >&2; exit 2; }
 t0=$(date +%s)
